@@ -281,10 +281,31 @@ func (p *printer) subshell(x *ast.Subshell) {
 		p.compoundList(x.List)
 		p.newline()
 		p.indent()
+	} else if p.startsWithParen(x.List[0]) {
+		// "((" would be read as an arithmetic evaluation
+		p.space()
+		p.command(x.List[0])
+		p.space()
 	} else {
 		p.command(x.List[0])
 	}
 	p.w.WriteByte(')')
+}
+
+// startsWithParen reports whether the output of c begins with "(".
+func (p *printer) startsWithParen(c ast.Command) bool {
+	switch x := c.(type) {
+	case ast.List:
+		return len(x) != 0 && p.startsWithParen(x[0])
+	case *ast.AndOrList:
+		return p.startsWithParen(x.Pipeline)
+	case *ast.Pipeline:
+		return x.Bang.IsZero() && p.startsWithParen(x.Cmd)
+	case *ast.Cmd:
+		_, ok := x.Expr.(*ast.Subshell)
+		return ok
+	}
+	return false
 }
 
 func (p *printer) group(x *ast.Group) {
@@ -636,6 +657,11 @@ func (p *printer) cmdSubst(w *ast.CmdSubst) {
 		p.compoundList(w.List)
 		p.newline()
 		p.indent()
+	} else if w.Dollar && p.startsWithParen(w.List[0]) {
+		// "$((" would be read as an arithmetic expansion
+		p.space()
+		p.command(w.List[0])
+		p.space()
 	} else {
 		p.command(w.List[0])
 	}
